@@ -32,6 +32,11 @@ def connrun(pid, tier, seed, replay):
             c08.satellite(v, pid, tier, seed, replay_scn=rep["streamsrv_scenario"])
             v.cov["evaluations"], v.cov["distinct_nontrivial"] = 1, 1
             return v.finish()
+        if "ssesat_scenario" in rep:
+            import ssesat
+            ssesat.satellite(v, pid, tier, seed, replay_scn=rep["ssesat_scenario"])
+            v.cov["evaluations"], v.cov["distinct_nontrivial"] = 1, 1
+            return v.finish()
         if "fanout_scenario" in rep:
             import fanout
             fanout.satellite(v, pid, tier, seed, replay_scn=rep["fanout_scenario"])
@@ -141,6 +146,11 @@ def connrun(pid, tier, seed, replay):
             from checks import c08
             c08.satellite(v, pid, tier, seed)
             v.cov["rule"] += "; plus the streamable-HTTP server transport: gated races, a transition-cover sample of the StreamSrv.tla seam graph and seeded random scenarios on a real StreamableHTTPHandler, judged by the %s clauses of StreamSrvMon" % pid
+        if pid in ("C01", "C02", "C03", "C05"):
+            # the legacy HTTP+SSE transport (SSESat.tla): the exhaustive design runs belong to C01 / C05 in the quick tier
+            import ssesat
+            ssesat.satellite(v, pid, tier, seed, design=(tier == "thorough" or pid in ("C01", "C05")))
+            v.cov["rule"] += "; plus the legacy HTTP+SSE transport: transition cover of the SSESat.tla seam graphs, TLC-simulated histories, corner and seeded random scripts on a real SSEHandler + SSEClientTransport pair, judged by the %s.Sse* clauses of SSESatMon" % pid
         if pid == "C03":
             import fanout
             fanout.satellite(v, pid, tier, seed)
